@@ -156,6 +156,34 @@ def handle (op : String) (args : List String) (impl : String) : Option Verdict :
       | none => false
     let mx := pl.foldl (fun a i => max a (itemLen i)) 0
     return ⟨showOut o, ok, s!"msg:{typ}>{dk}:{if wf then "fits" else "nofit"}:{outClass o}:maxfield{lenBucket mx}"⟩
+  -- ONE listener + handler object, the same deposit handled k times: every answer is the history-free one
+  | "seq", [mode, k, sk, dk, s, d, nonce, rid, a1, a2] => some <| Id.run do
+    let some k := k.toNat? | return bad
+    let some inp := parseInput sk dk s d nonce rid a1 a2 | return bad
+    let one := match relay inp with
+      | .errSrc | .panicSrc => "none"
+      | o => showOut o
+    let m := "|".intercalate (List.replicate k one)
+    let outs := impl.splitOn "|"
+    let ok := outs.length == k && outs.all fun o =>
+      match (if o = "none" then some Out.errSrc else parseOut o) with
+      | some x => decide (P01 inp x)
+      | none => false
+    return ⟨m, ok, s!"seq:{mode}:{sk}>{dk}:{if (expected inp).isSome then "wf" else "nwf"}:{if one = "none" then "none" else outClass (relay inp)}"⟩
+  -- a V2 retry message from another domain through the source chain's RetryMessageHandler: identity stays the deposit's
+  | "retrymsg", [chain, _r, sk, dk, s, d, nonce, rid, a1, a2] => some <| Id.run do
+    let some inp := parseInput sk dk s d nonce rid a1 a2 | return bad
+    -- the retry asks for (resource, destination) = the deposit's own; a deposit addressed elsewhere is filtered out
+    let dstOk := match source inp with
+      | .ok msg => msg.id.dst == inp.id.dst
+      | _ => true
+    let m := if !dstOk then "none" else match relay inp with
+      | .errSrc | .panicSrc => "none"
+      | o => showOut o
+    let ok := match (if impl = "none" then some Out.errSrc else parseOut impl) with
+      | some x => !dstOk || decide (P01 inp x)
+      | none => false
+    return ⟨m, ok, s!"retrymsg:{chain}:{sk}>{dk}:{if (expected inp).isSome then "wf" else "nwf"}:{if m = "none" then "none" else outClass (relay inp)}"⟩
   | "e2e", [sk, dk, s, d, nonce, rid, a1, a2] => some <| Id.run do
     let some sk' := parseSk sk | return bad
     let some dk' := parseDk dk | return bad
